@@ -103,6 +103,10 @@ M = [
   "            self.internal_buffer_position += 1;\n            if self.peek_valid_tag_header().is_ok() {",
   "            if self.buffer[self.internal_buffer_position] != 0x0b { self.internal_buffer_position += 1; }\n            if self.peek_valid_tag_header().is_ok() {",
   ["C05"], "the recovery scan does not advance past a 0x0b byte: try_recover() spins forever without reading (caught by the watchdog as a hang)"),
+ ("m23_matcher_recursion_never_ends", "src/spec_util.rs",
+  "            (min..=max).any(|count| path_matches(rest, &parents[count..]))",
+  "            (min..=max).any(|count| if count == 0 && min == 0 && !parents.is_empty() && rest.is_empty() { path_matches(path, parents) } else { path_matches(rest, &parents[count..]) })",
+  ["C11"], "the placeholder matcher recurses on unchanged arguments for a trailing placeholder with minimum 0 and a non-empty chain: stack overflow (reported through the abort handler of the worker process)"),
 ]
 
 def main():
